@@ -179,7 +179,7 @@ func protect(name string, f func()) (panicked interface{}, stackTrace string, hu
 
 func TestC19(t *testing.T) {
 	st := statsFor("C19")
-	st.Rule = "(a) a valid database is built by a generated history, closed, and then damaged by 1-3 generated mutations: schema.json or an object file truncated at a generated offset, a bit flipped, or - structure aware - the JSON subtree at a generated node replaced by a value of another shape (null, numbers incl. negative/fractional/huge, strings, empty array/object, tuples of arity 0/1/3, non-numeric object id, unknown cast, deleted or duplicated key/element); extra directory entries (name without a dot, sub-directory, uuid-named directory, uuid-named file with a foreign extension, empty uuid-named file, dangling symlink). replacement shapes include other VALID casts/type names; (b) search argument triples (each also as And/Or refinement of a valid search with an all-matching and, if available, a single-match left side, followed by a write under the watchdog to expose a lock left behind): paths {valid leaf, struct, pointer, unexported, embedded struct, bogus, empty, dotted garbage} x operators {7 valid, garbage} x values {well typed, other class, nil, bool, struct, invalid pattern} on empty and non-empty collections, indexed and not. Oracle: a fixed battery of API calls (first load, Control, Count, All, Get of every uuid, searches on indexed and unindexed paths, InsertOrUpdate, Delete, Repair, Control, Close, reopen) runs under recover() and a watchdog: no panic, no hang, every call returns an error or a result; a search the model cannot evaluate returns no objects; when only stray (non uuid-named) entries were added every result still equals the model. On the damaged directory a scan must fail or cover the collection: Search(x >= 0) and Search(x < 0) over an unindexed integer path either return an error or together as many objects as Count. Unknown connectives given to Search.Operation must fail; a search on the interface{} field through a template carrying a string / int64 / float64 (objects hold other dynamic types) must not panic and may only return objects holding the probe. Non-trivial: a mutation that keeps the file valid JSON (decoding reaches the type-asserting code), a stray entry, or an argument outside the well-formed domain. Distinct by program hash."
+	st.Rule = "(a) a valid database is built by a generated history, closed, and then damaged by 1-3 generated mutations: schema.json or an object file truncated at a generated offset, a bit flipped, or - structure aware - the JSON subtree at a generated node replaced by a value of another shape (null, numbers incl. negative/fractional/huge, strings, empty array/object, tuples of arity 0/1/3, non-numeric object id, unknown cast, deleted or duplicated key/element); extra directory entries (name without a dot, sub-directory, uuid-named directory, uuid-named file with a foreign extension, empty uuid-named file, dangling symlink). replacement shapes include other VALID casts/type names; (b) search argument triples (each also as And/Or refinement of a valid search with an all-matching and, if available, a single-match left side, followed by a write under the watchdog to expose a lock left behind): paths {valid leaf, struct, pointer, unexported, embedded struct, bogus, empty, dotted garbage} x operators {7 valid, garbage} x values {well typed, other class, nil, bool, struct, invalid pattern} on empty and non-empty collections, indexed and not. Oracle: a fixed battery of API calls (first load, Control, Count, All, Get of every uuid, searches on indexed and unindexed paths, InsertOrUpdate, Delete, Repair, Control, Close, reopen) runs under recover() and a watchdog: no panic, no hang, every call returns an error or a result; a search the model cannot evaluate returns no objects; when only stray (non uuid-named) entries were added every result still equals the model. On the damaged directory a scan must fail or cover the collection: Search(x >= 0) and Search(x < 0) over an unindexed integer path either return an error or together as many objects as Count. Unknown connectives given to Search.Operation must fail; a search on the interface{} field through a template carrying a string / int64 / float64 (objects hold other dynamic types) must not panic and may only return objects holding the probe. TestC19Special: schema.json is replaced by a named pipe, a directory, a symbolic link to a directory / to itself / to nothing, or an empty file; Count, InsertOrUpdate, All, Search, Control, Repair, Create and Close must return without panic. Non-trivial: a mutation that keeps the file valid JSON (decoding reaches the type-asserting code), a stray entry, or an argument outside the well-formed domain. Distinct by program hash."
 	st.Assumptions = append(baseAssumptions(), "panics documented for misuse of Assign*/AssignIndex targets are not provoked", "a call that does not return within 15 s on a database of < 20 objects is a hang")
 	prof := &Profile{
 		Property: "C19", MaxOps: pick(8, 16),
